@@ -42,18 +42,18 @@ pub fn entries() -> Vec<Entry> {
         Entry { id: "C02", rule: "allocation-heavy generated programs x 11 plans; every successful alloc result must be disjoint from the interval set {reachable objects at their current addresses} + {every allocation since the last pause}; non-trivial = >=1 allocation below the pre-GC high-water mark (recycled memory) after >=1 GC with survivors", run: c02 },
         Entry { id: "C03", rule: "generated legal (size, align, offset, semantics) tuples from a boundary-biased size table x 11 plans x alignment variants, interleaved with GCs and dirtying of every object; oracle = non-zero, (A+offset)%align==0, inside the space the plan maps the semantics to, all bytes zero; non-trivial = align > MIN and offset != 0, or recycled memory", run: c03 },
         Entry { id: "C04", rule: "generated programs with Immortal/Los/NonMoving allocations, pin/unpin, pinning and transitively pinning roots, defrag options; oracle = address unchanged across every pause while pinned/non-moving, unreachable immortal objects stay intact; non-trivial = >=1 moving GC while a fixed object was live, or an unreachable immortal object checked after >=2 GCs", run: c04 },
-        Entry { id: "C05", rule: "GenCopy/GenImmix/StickyImmix programs that build old objects, then store young objects reachable only through barriered writes / region copies into old objects, then nursery GCs; oracle = shadow walk; non-trivial = >=1 nursery GC and >=1 young object reachable only via an old->young edge", run: c05 },
+        Entry { id: "C05", rule: "GenCopy/GenImmix/StickyImmix programs that build old objects, then store young objects reachable only through barriered writes / region copies (slices that name their holder object and slices that do not) into old objects, then nursery GCs; oracle = shadow walk; non-trivial = >=1 nursery GC and >=1 young object reachable only via an old->young edge", run: c05 },
         Entry { id: "C06", rule: "programs with soft/weak/phantom reference objects registered at creation, finalizer registrations, late/never pops; oracle = stage-ordered reachability model (safety at every GC, completeness after forced exhaustive full-heap GCs); non-trivial = (>=1 reference cleared and >=1 retained) or >=1 finalizable object popped", run: c06 },
         Entry { id: "C07", rule: "programs ending episodes with forced exhaustive GCs on every plan (vo_bit build); oracle = enumerate_objects multiset == survivors, is_mmtk_object Some for survivors and None for reclaimed/moved-away addresses; non-trivial = >=1 reclaimed address checked and survivors in >=2 spaces", run: c07 },
         Entry { id: "C08", rule: "probe points after allocation and after GCs: word-aligned addresses around/inside objects for is_mmtk_object, interior pointers x max_search_bytes {1,2,7,8,9,d,d+1,d+2,4096,1MiB} for find_object_from_internal_pointer, addresses outside the heap; oracle = shadow interval map; non-trivial probe = unaligned pointer, pointer >= 4096 bytes into the object, or limit <= distance", run: c08 },
         Entry { id: "C09", rule: "allocate-drop-GC cycles (10..40 cycles quick) with generated size mixes incl. LOS/non-moving/weak/finalizers for every collecting plan; oracle = no out_of_memory, used_bytes after cycle k <= max(first three) + one chunk, free+used <= total; non-trivial = >=10 cycles", run: c09 },
         Entry { id: "C10", rule: "heaps filled with reachable data, then alloc_with_options over all 8 flag combinations x size classes (small..usize::MAX) x semantics; oracle over callback counters: no OOM call when disallowed, no block_for_gc when not at safepoint, OOM only after a GC (or obviously too large), null on OOM; non-trivial = >=1 call returned null or called out_of_memory", run: c10 },
-        Entry { id: "C11", rule: "generated programs x 11 plans x 1-4 workers x 1-3 mutators with the scheduler event log on; per collection: stop_all_mutators exactly once and before the first stop-the-world bucket opens, no stop-the-world packet and no scan_object/copy callback outside the stop..resume bracket (copy only, for the concurrent plan), every bound mutator scanned exactly once per root-scanning round, resume_mutators exactly once with no packet executing and none pending; non-trivial = >=2 mutators bound and >=2 workers and >=2 collections", run: c11 },
+        Entry { id: "C11", rule: "generated programs x 11 plans x 1-4 workers x 1-3 mutators with the scheduler event log on; per collection: stop_all_mutators exactly once and before the first stop-the-world bucket opens, no stop-the-world packet and no scan_object/copy callback outside the stop..resume bracket (copy only, for the concurrent plan), every bound mutator scanned exactly once per root-scanning round, resume_mutators exactly once with no packet executing and none pending; racing forced GC requests from 2-4 mutator threads at once: every call returns true and only after a collection has ended since it was made; non-trivial = >=2 mutators bound and >=2 workers and >=2 collections", run: c11 },
         Entry { id: "C14", rule: "generated programs x 10 collecting plans x 1-4 workers: user GC requests (also back to back), allocation-triggered GCs, prepare_to_fork requested from inside a running GC, fork cycles; oracles: every accepted request is followed by a completed collection, a watchdog over the mirrored scheduler state reports 'all N workers parked, goal current or requested, no scheduler event for 8 s', after the program all workers are parked with no goal, parked counts of monitor and event log agree; non-trivial = >=2 collections and (>=1 fork request made during a GC or >=2 collections requested back to back)", run: c14 },
-        Entry { id: "C15", rule: "generated programs x 11 plans x 1-4 workers with the scheduler event log on; every stop-the-world bucket other than Prepare is opened by the last parked worker (all N parked in the log, no packet executing) with every earlier enabled bucket open and empty (snapshot taken inside WorkBucket::update), in stage order; adds and starts of packets match by type, nothing pending and every stop-the-world bucket closed and empty at resume_mutators; non-trivial = >=3 workers and >=1 bucket opened after packets had been added to it by packets of earlier buckets, or >=2 packets executing in parallel", run: c15 },
+        Entry { id: "C15", rule: "generated programs x 11 plans x 1-4 workers with the scheduler event log on; every stop-the-world bucket other than Prepare is opened by the last parked worker (all N parked in the log, no packet executing) with every earlier enabled bucket open and empty (snapshot taken inside WorkBucket::update), in stage order; adds and starts of packets match by type, nothing pending and every stop-the-world bucket closed and empty at resume_mutators; in half of the cases the binding adds packets of its own to later stages (Closure, Release, Final) during each pause: all executed before the mutators resume; non-trivial = >=3 workers and >=1 bucket opened after packets had been added to it by packets of earlier buckets, or >=2 packets executing in parallel", run: c15 },
         Entry { id: "C12", rule: "ConcurrentImmix programs sized to cross the concurrent trigger, overwriting references of snapshot objects / region copies / new allocations during marking; oracle = shadow walk after every pause + survivors of snapshot; non-trivial = >=1 pointer overwrite while concurrent marking was in progress and >=2 pauses", run: c12 },
-        Entry { id: "C13", rule: "programs with VM-side ephemeron tables incl. dependency chains of depth 0..6; oracle = is_reachable of the model's retained set at the first process_weak_refs call, closure of values traced in round j reachable at round j+1, true => another call / false => none, forward_weak_refs exactly when the plan needs it; non-trivial = >=3 rounds in one GC", run: c13 },
-        Entry { id: "C16", rule: "histories of GCs and fork cycles (prepare_to_fork, join every worker thread, after_fork) x 1-4 workers; oracle = every worker exits exactly once, after_fork spawns N workers with ordinals 0..N-1, later GCs satisfy the shadow walk; non-trivial = >=2 fork cycles with GCs in between", run: c16 },
+        Entry { id: "C13", rule: "programs with VM-side ephemeron tables incl. dependency chains of depth 0..6 whose values live in the default, non-moving, large-object and immortal spaces; oracle = is_reachable of the model's retained set at the first process_weak_refs call, closure of values traced in round j reachable at round j+1, true => another call / false => none, forward_weak_refs exactly when the plan needs it; non-trivial = >=3 rounds in one GC", run: c13 },
+        Entry { id: "C16", rule: "histories of GCs and fork cycles (prepare_to_fork, join every worker thread, after_fork) x 1-4 workers; oracle = every worker exits exactly once, after_fork spawns N workers with ordinals 0..N-1, each respawned worker keeps its identity (the shared part handed to spawn_gc_thread) and ordinal, later GCs satisfy the shadow walk; non-trivial = >=2 fork cycles with GCs in between", run: c16 },
         Entry { id: "C24", rule: "complete enumeration of 11 plans x 4 ShadowVM metadata layouts (all-side, forwarding-in-header, header-heavy, permuted declaration order) x 2 feature builds (vo_bit / base), each instantiated in its own process; oracle: the address ranges [start, start + 2^(47 - log_region + log_bits - 3)) of all distinct side specs of all spaces are pairwise disjoint and inside the reserved range, and for 500+ heap addresses no two tables keep the field in the same byte; non-trivial = configuration with >= 2 VM side specs (every layout except header-heavy has >= 4)", run: c24 },
         Entry { id: "C31", rule: "address probes (0, heap/space edges +-8, 2^47, usize::MAX, 2000 uniform in-heap, 200 uniform 48-bit, object starts/ends) per plan after generated allocation/GC activity; oracle = object addresses resolve to their space, outside-heap addresses resolve to the empty SFT and are not in MMTk spaces, SFT non-empty => VM map descriptor is that space's; non-trivial = >=1 probe within 4 MiB of a heap edge", run: c31 },
         Entry { id: "C34", rule: "Immix-family programs with many GCs (nursery/full/defrag mixes, straddling objects); after every marking pause every hole get_next_available_lines yields for every allocated block is disjoint from lines overlapped by shadow-live objects; block-state byte round trip for all 256 bytes; non-trivial = >=1 live object straddling >=3 lines in a space with holes", run: c34 },
@@ -130,6 +130,9 @@ fn c05(c: &mut Check) {
         if cv(v, "region_old_to_young") > 0 {
             l.push("region_copy_old_to_young");
         }
+        if cv(v, "region_old_to_young_no_holder") > 0 {
+            l.push("region_copy_slice_without_holder");
+        }
         (nt, l)
     });
 }
@@ -198,6 +201,9 @@ fn c11(c: &mut Check) {
         if cv(v, "sched_pauses") >= 2 {
             l.push("ge2_pauses");
         }
+        if cv(v, "racing_gc") > 0 {
+            l.push("racing_gc_requests");
+        }
         (nt, l)
     });
 }
@@ -247,6 +253,9 @@ fn c15(c: &mut Check) {
         let mut l = labels_common(v);
         if cv(v, "sched_max_parallel_packets") >= 2 {
             l.push("parallel_packets");
+        }
+        if cv(v, "vm_packets") > 0 {
+            l.push("binding_added_packets");
         }
         (nt, l)
     });
